@@ -94,10 +94,25 @@ def level0_case(draw, tier='quick'):
     cells = []
     for i in range(n_cells):
         reg = regions[i]
-        if draw(st.integers(0, 9)) == 0:
+        if draw(st.integers(0, 6)) == 0:
             # inject a patently empty piece (s -s) as an extra union member
             s0 = draw(st.sampled_from(ids))
-            reg = md.OR(reg, md.AND(md.S(s0), md.S(-s0)))
+            s1 = s0
+            if draw(st.booleans()):
+                # ... empty only for who knows that two cards describe the
+                # same surface: the second sense refers to a duplicate card
+                src = [q for q in surfs if q['id'] == s0][0]
+                s1 = max(q['id'] for q in surfs) + draw(st.integers(1, 3))
+                surfs.append(md.surf(s1, src['kind'], list(src['params'])))
+                if s1 != s0 and src['kind'] in mgeom.MACRO_KINDS:
+                    fc[s1] = fc[s0]
+                labels.append('empty-piece-through-duplicate-card')
+            piece = [md.S(s0), md.S(-s1)]
+            if draw(st.integers(0, 2)) == 0:
+                piece.append(draw(gen.leaf(ids, fc)))
+            if draw(st.booleans()):
+                piece = piece[::-1]
+            reg = md.OR(reg, md.AND(*piece))
             labels.append('patently-empty-piece')
         terms = [reg]
         if partition:
